@@ -326,27 +326,46 @@ func ruleNoSendAfterDone(c *Ctx, rule string) {
 				continue
 			}
 		}
-		// execution segments: body, then deferred closures last-registered first
-		var defers []*ssa.Function
+		// execution segments: body, then deferred calls last-registered first; a
+		// deferred closure is a segment of its own, a directly deferred call
+		// (defer wg.Done()) is a segment consisting of that call
+		type segment struct {
+			fn     *ssa.Function
+			direct *ssa.Defer
+		}
+		var defers []segment
 		for _, b := range g.Blocks {
 			for _, ins := range b.Instrs {
 				if d, ok := ins.(*ssa.Defer); ok {
 					if mc, ok := d.Call.Value.(*ssa.MakeClosure); ok {
 						if df, ok := mc.Fn.(*ssa.Function); ok {
-							defers = append(defers, df)
+							defers = append(defers, segment{fn: df})
+							continue
 						}
 					}
+					defers = append(defers, segment{direct: d})
 				}
 			}
 		}
-		segs := []*ssa.Function{g}
+		segl := []segment{{fn: g}}
 		for i := len(defers) - 1; i >= 0; i-- {
-			segs = append(segs, defers[i])
+			segl = append(segl, defers[i])
 		}
+		var segs []*ssa.Function
 		doneSeg := -1
 		var doneIns ssa.Instruction
-		for i, s := range segs {
-			if d := find(s, isDone); len(d) > 0 && doneSeg < 0 {
+		for i, s := range segl {
+			segs = append(segs, s.fn)
+			if doneSeg >= 0 {
+				continue
+			}
+			if s.direct != nil {
+				if isDone(s.direct) {
+					doneSeg, doneIns = i, s.direct
+				}
+				continue
+			}
+			if d := find(s.fn, isDone); len(d) > 0 {
 				doneSeg, doneIns = i, d[0]
 			}
 		}
@@ -358,8 +377,11 @@ func ruleNoSendAfterDone(c *Ctx, rule string) {
 		key := fmt.Sprintf("%s/no-send-on-%s-after-Done", funcName(g), closed)
 		var late ssa.Instruction
 		for i, s := range segs {
+			if s == nil {
+				continue
+			}
 			for _, snd := range find(s, isSend) {
-				if i > doneSeg || (i == doneSeg && instrAfter(doneIns, snd)) {
+				if i > doneSeg || (i == doneSeg && doneIns.Parent() == s && instrAfter(doneIns, snd)) {
 					late = snd
 				}
 			}
@@ -459,4 +481,141 @@ func ruleBroadcast(c *Ctx, rule string) {
 			}
 		}
 	}
+}
+
+// ruleCloseBySender: a channel created in a function and sent on by a
+// goroutine that the function starts must not be closed by the function
+// itself (directly or in a deferred call): the goroutine may be blocked in,
+// or about to perform, a send — panic: send on closed channel.
+func ruleCloseBySender(c *Ctx, rule, short string) {
+	sp := c.SPkgs[c.pkg(short).PkgPath]
+	n := 0
+	for _, f := range srcFuncs(sp) {
+		// channels made here
+		for _, b := range f.Blocks {
+			for _, ins := range b.Instrs {
+				mk, ok := ins.(*ssa.MakeChan)
+				if !ok {
+					continue
+				}
+				// goroutine closures started by f that send on it (through the captured variable)
+				sender := ""
+				for _, an := range f.AnonFuncs {
+					isGo := false
+					for _, fb := range f.Blocks {
+						for _, fi := range fb.Instrs {
+							if g, ok := fi.(*ssa.Go); ok {
+								if mc, ok := g.Call.Value.(*ssa.MakeClosure); ok && mc.Fn == an {
+									isGo = true
+								}
+							}
+						}
+					}
+					if !isGo {
+						continue
+					}
+					for _, ab := range an.Blocks {
+						for _, ai := range ab.Instrs {
+							if s, ok := ai.(*ssa.Send); ok && chanOrigin(s.Chan, f) == ssa.Value(mk) {
+								sender = funcName(an)
+							}
+						}
+					}
+				}
+				if sender == "" {
+					continue
+				}
+				n++
+				key := fmt.Sprintf("%s/chan#%d-not-closed-under-its-sender", funcName(f), n)
+				var closer ssa.Instruction
+				check := func(fn *ssa.Function) {
+					for _, cb := range fn.Blocks {
+						for _, ci := range cb.Instrs {
+							var cc *ssa.CallCommon
+							switch x := ci.(type) {
+							case *ssa.Call:
+								cc = &x.Call
+							case *ssa.Defer:
+								cc = &x.Call
+							}
+							if cc == nil {
+								continue
+							}
+							if bi, ok := cc.Value.(*ssa.Builtin); ok && bi.Name() == "close" && chanOrigin(cc.Args[0], f) == ssa.Value(mk) {
+								closer = ci
+							}
+						}
+					}
+				}
+				check(f)
+				for _, an := range f.AnonFuncs {
+					if funcName(an) != sender {
+						check(an)
+					}
+				}
+				if closer != nil {
+					c.bad(rule, key, closer.Pos(), "the channel made at "+c.pos(mk.Pos())+" is sent on by the goroutine "+sender+" but closed here by another party: when the function returns early (an operation failed) that goroutine is still blocked in its send and panics with `send on closed channel`")
+				} else {
+					c.ok(rule, key, mk.Pos(), "only sent on by "+sender+"; nobody else closes it")
+				}
+			}
+		}
+	}
+	if n == 0 {
+		c.triv(rule, short+"/no-function-local-channel-with-goroutine-sender", token.NoPos, "no function-local channel is sent on by a goroutine the function starts")
+	}
+}
+
+// chanOrigin follows a channel value back to the MakeChan in outer (through
+// the cell it is captured in).
+func chanOrigin(v ssa.Value, outer *ssa.Function) ssa.Value {
+	for i := 0; i < 6; i++ {
+		switch x := v.(type) {
+		case *ssa.MakeChan:
+			return x
+		case *ssa.ChangeType:
+			v = x.X
+		case *ssa.UnOp:
+			if x.Op != token.MUL {
+				return nil
+			}
+			v = x.X
+		case *ssa.FreeVar:
+			// the i-th binding of the closure: find the MakeClosure in outer
+			fn := x.Parent()
+			idx := -1
+			for k, fv := range fn.FreeVars {
+				if fv == x {
+					idx = k
+				}
+			}
+			var bound ssa.Value
+			for _, b := range outer.Blocks {
+				for _, ins := range b.Instrs {
+					if mc, ok := ins.(*ssa.MakeClosure); ok && mc.Fn == fn && idx >= 0 && idx < len(mc.Bindings) {
+						bound = mc.Bindings[idx]
+					}
+				}
+			}
+			if bound == nil {
+				return nil
+			}
+			v = bound
+		case *ssa.Alloc:
+			// the cell: what is stored into it?
+			var stored ssa.Value
+			for _, r := range *x.Referrers() {
+				if st, ok := r.(*ssa.Store); ok && st.Addr == x {
+					stored = st.Val
+				}
+			}
+			if stored == nil {
+				return nil
+			}
+			v = stored
+		default:
+			return nil
+		}
+	}
+	return nil
 }
